@@ -118,6 +118,17 @@ public:
         }
         std::vector<uint8_t> img = writeWopn(gw);
         OPN2_MIDIPlayer *dev = opn2_init(44100);
+        // a third of the runs load another bank file first whose banks sit at every number the generator picks from, none blank:
+        // "the instrument stored at (MSB, LSB, program)" means stored by the file loaded last - what an earlier file stored there is gone
+        if(mix64((uint64_t)p.get("bankseed"), 0x0DDB) % 3 == 0)
+        {
+            Rng pr(mix64((uint64_t)p.get("bankseed"), 0x0DDC)); GenWopn pw; pw.version = 2; pw.lfoFreq = 0; pw.chipType = 0;
+            static const int pm[] = { 0, 1, 2, 8, 64 }, pll[] = { 0, 1, 2, 3 }, pp[] = { 0, 1, 2, 3, 5, 128, 129, 130, 131 };
+            for(int a = 0; a < 5; ++a) for(int c = 0; c < 4; ++c) { GenBank b; b.msb = (uint8_t)pm[a]; b.lsb = (uint8_t)pll[c]; for(int k = 0; k < 128; ++k) fillIns(pr, b.ins[k], (unsigned)k, 77u, (unsigned)(900 + a * 4 + c), false); pw.mel.push_back(b); }
+            for(int c = 0; c < 9; ++c) { GenBank b; b.msb = 0; b.lsb = (uint8_t)pp[c]; for(int k = 0; k < 128; ++k) { fillIns(pr, b.ins[k], (unsigned)k, 78u, (unsigned)(950 + c), false); b.ins[k].percKey = 60; } pw.perc.push_back(b); }
+            std::vector<uint8_t> pimg = writeWopn(pw);
+            if(opn2_openBankData(dev, pimg.data(), (long)pimg.size()) == 0) run.count("bank_loaded_over_an_earlier_bank_file");
+        }
         if(opn2_openBankData(dev, img.data(), (long)img.size()) != 0) { run.fail("bank-load-failed", "setup", opn2_errorInfo(dev)); opn2_close(dev); tapInstall(false); return; }
         opn2_switchEmulator(dev, OPNMIDI_EMU_GENS);
         opn2_setNumChips(dev, 2);
